@@ -261,6 +261,12 @@ def year_fraction(repo, rep):
     leap_t = ret_term(repo, "Epoch", "Epoch.leap", arg_terms={"self": J})
     N = T.subst(N, {T.call("Epoch.Epoch.leap", J): leap_t})
     N = T.subst(N, {Y: T.sym("NUM_Y")})
+    check_yearlen(repo, rep, site, N)
+
+
+def check_yearlen(repo, rep, site, N):
+    """N (a term in NUM_Y) >= get_doy(NUM_Y, 12, 31) on every class of year"""
+    from ..rules import eval_exact, NotEvaluable
     fn = repo.func("Epoch", "Epoch.get_doy")
     an = [a.arg for a in fn.args.args]
     M = ret_term(repo, "Epoch", "Epoch.get_doy", arg_terms={an[0]: T.sym("NUM_Y"), an[1]: T.num(12), an[2]: T.num(31)})
@@ -291,8 +297,46 @@ def year_fraction(repo, rep):
         rep.inconcl("R-YEARLEN", site, "year %d: %s" % (y, nv))
     else:
         rep.violation("R-YEARLEN", site, "year-length:%d" % y,
-                      "fractional year of %d divides by %s days although get_doy gives 31 December the number %s: year() reaches or passes the next integer "
+                      "fractional year of %d divides by %s days although get_doy gives 31 December the number %s: the fractional year reaches or passes the next integer "
                       "inside the year, or jumps at New Year (also: %s%s)" % (y, float(nv), float(mv), more, " ..." if len(bad) > 6 else ""), obligation=True)
+
+
+def yearlen_sites(repo, rep, mod, qual, term, year_term):
+    """every place in `term` where a day of the year is turned into a fraction of the year, get_doy(Y, ..)/N or
+    (get_doy(Y, ..) + c)/N: N must be at least the day number of 31 December of that year on every class of year, else the
+    fractional year runs past the next New Year before the year ends and moves backwards at New Year.  Returns the number of
+    sites found."""
+    rep.rule("R-YEARLEN", "denominator of the fractional year >= get_doy(year, 12, 31) for every class of year (side of 1582/1583, residue mod 400, sign)")
+    site = "%s.%s" % (mod, qual)
+    found = []
+    has_doy = lambda f: any(y[0] == "call" and y[1] == "Epoch.Epoch.get_doy" for y in T.walk(f))
+    for a_ in T.walk(term):
+        if a_[0] != "add" or year_term not in a_[1:]:
+            continue
+        for x in a_[1:]:
+            if x[0] != "mul" or not has_doy(x):
+                continue
+            dens = [f for f in x[1:] if f[0] == "pow" and f[2] == T.num(-1)]
+            nums = [f for f in x[1:] if f[0] == "num"]
+            doys = [f for f in x[1:] if has_doy(f) and f not in dens]
+            if len(doys) != 1 or any(has_doy(d) for d in dens) or len(dens) + len(nums) + 1 != len(x) - 1:
+                continue
+            N = T.mul(*[d[1] for d in dens]) if dens else T.ONE
+            for c in nums:
+                N = T.div(N, c)
+            if N not in found:
+                found.append(N)
+    for N in found:
+        if any(y[0] in ("lv", "lt", "loopout") for y in T.walk(N)):
+            rep.inconcl("R-YEARLEN", site, "year length is computed in a loop: " + T.show(N)[:80])
+            continue
+        N2 = T.subst(N, {year_term: T.sym("NUM_Y")})
+        free = [y for y in T.walk(N2) if y[0] == "sym" and y != T.sym("NUM_Y")]
+        if free:
+            rep.inconcl("R-YEARLEN", site, "year length depends on more than the year: " + T.show(N2)[:80])
+            continue
+        check_yearlen(repo, rep, site, N2)
+    return len(found)
 
 
 def doy_tables(repo, rep, tier):
